@@ -57,10 +57,10 @@ def InstrsAt (P : Prog F) : Nat → List Instr → Prop
   | _, [] => True
   | pc, t :: ts => P.instrs[pc]? = some t ∧ InstrsAt P (pc + 1) ts
 
-/-- the terminators that follow a root whose code ends at `pcEnd`: those not equal to the root's last
-instruction (`build`'s rule) -/
+/-- the terminators that follow a root whose code ends at `pcEnd`: all of them, except an `EndExpression`
+equal to the root's own last instruction (`build`'s rule) -/
 def termsAfter (P : Prog F) (pcEnd : Nat) (term : List Instr) : List Instr :=
-  term.filter (fun t => !decide (P.instrs[pcEnd - 1]? = some t))
+  term.filter (fun t => !(decide (P.instrs[pcEnd - 1]? = some t) && decide (t.1 = .endExpression)))
 
 mutual
 def Located (P : Prog F) (root cur : Nat) : Nat → Expr F → Prop
@@ -203,24 +203,6 @@ def enFreeArms : List (Bool × Expr F × Expr F) → Bool
   | (_, c, t) :: rest => enFree c && enFree t && enFreeArms rest
 end
 
-/-- the main line of `e` ends with the instruction `Tis` -/
-def endsTis : Expr F → Bool
-  | .unary op _ => op == .tis
-  | .binary op _ _ => op == .tis
-  | .seq _ b => endsTis b
-  | .chain _ (some fe) => endsTis fe
-  | _ => false
-
-/-- `build` does not append a terminator that equals the last instruction of the root. For the `Tis` that
-terminates the right operand of `&&`/`||` this is sound only when that last `Tis` is executed on every path
-to the end of the root: not when it is the end of the final arm of an else-chain, which the other arms
-jump over (finding: `1 && (1 ?> 7 |> ?? 2)` is `7`). -/
-def skipSafe : Expr F → Bool
-  | .seq _ b => skipSafe b
-  | .chain [] (some fe) => skipSafe fe
-  | .chain (_ :: _) (some fe) => !endsTis fe
-  | _ => true
-
 mutual
 /-- expressions the language can produce and on which `build` and the meaning of the source agree -/
 def wfE : Expr F → Bool
@@ -232,7 +214,7 @@ def wfE : Expr F → Bool
   | .list items => wfEList items
   -- an out-of-line root has its own jump entry, which is what `{ }` refers to there (builder oddity)
   | .cond _ c t => wfE c && wfE t && enFree t
-  | .and l r | .or l r => wfE l && wfE r && enFree r && skipSafe r
+  | .and l r | .or l r => wfE l && wfE r && enFree r
   -- an else-chain has a final (non-conditional) arm: without one no value is pushed when no arm matches (finding #6)
   | .chain arms final => wfEArms arms && (match final with | some e => wfE e | none => false)
   -- a restart from inside a side-effect block would leave the block's copy of `$` on the value stack
